@@ -17,6 +17,8 @@ require (
 	deps.dev/util/resolve v0.0.0-00010101000000-000000000000
 	deps.dev/util/semver v0.0.0-20241230231135-52b7655a522f
 	golang.org/x/tools v0.29.0
+	google.golang.org/genproto v0.0.0-20230410155749-daa745c078e1
+	google.golang.org/protobuf v1.36.6
 )
 
 require (
@@ -25,9 +27,7 @@ require (
 	golang.org/x/sync v0.12.0 // indirect
 	golang.org/x/sys v0.31.0 // indirect
 	golang.org/x/text v0.23.0 // indirect
-	google.golang.org/genproto v0.0.0-20230410155749-daa745c078e1 // indirect
 	google.golang.org/grpc v1.71.1 // indirect
-	google.golang.org/protobuf v1.36.6 // indirect
 )
 
 replace golang.org/x/sync => golang.org/x/sync v0.10.0
